@@ -23,12 +23,18 @@ def slab_configs(tier):
 
 def run_slab(ctx, prefix, std=False, harnesses=None, jobs=None):
     ths = []
+    # every perform_op harness needs several GB: at most 4 configurations (x `jobs` harnesses) are in flight at a time
+    gate = threading.Semaphore(4 if ctx.tier == "quick" else 3)
+
+    def gated(*a, **kw):
+        with gate:
+            run_harnesses(*a, **kw)
     for (count, t, mapped, scalar, kinds) in slab_configs(ctx.tier):
         ov = Overlay(ctx.scratch.path, "ov_%s_slab_%d_%d_%d_%d" % (prefix, count, t, mapped, kinds), std=std, debug_assertions=True)
         ov.append_file("symbol_slab.rs", "c09_symbol_slab.rs", {"@COUNT@": str(count), "@T@": str(t), "@MAPPED@": "true" if mapped else "false",
                                                                  "@UNWIND@": str(max(count * t + 2, 12)), "@SCALAR@": scalar, "@KINDS@": str(kinds)})
-        th = threading.Thread(target=run_harnesses, args=(ctx, ov, harnesses or SLAB_HARNESSES),
-                              kwargs=dict(timeout_s=1200, mem_gb=20, replay_kind="slab", prefix="%s/count=%d,T=%d,%s/" % (prefix, count, t, "mapped" if mapped else "identity"),
+        th = threading.Thread(target=gated, args=(ctx, ov, harnesses or SLAB_HARNESSES),
+                              kwargs=dict(timeout_s=1200 if ctx.tier == "quick" else 3000, mem_gb=20 if ctx.tier == "quick" else 30, replay_kind="slab", prefix="%s/count=%d,T=%d,%s/" % (prefix, count, t, "mapped" if mapped else "identity"),
                                           jobs=jobs or 4))
         th.start()
         ths.append(th)
